@@ -337,6 +337,26 @@ Theorem model_passes_check_with_oracle :
 Proof. exact model_passes_check_oracle_lemma. Qed.
 Print Assumptions model_passes_check_with_oracle.
 
+(** ... and when moreover the service context ids are not negative ([ctx_nonneg]; the driver
+    interns them from 0, the model uses -1 for "no context"), the correspondence side is silent
+    too: the whole checker answers (-1, -1, 0), also on the compressed form the driver sends. *)
+Theorem model_passes_whole_check_with_oracle :
+  forall (sha : hin -> Z) (steps : list step),
+    sane allP [] steps -> wf_env [] [] steps -> ctx_nonneg steps ->
+    check_from sha init pinit tinit (model_trace_o sha init tinit steps) 0 (-1) (-1) 0 false = (-1, -1, 0).
+Proof. exact model_passes_check_oracle_full_lemma. Qed.
+Print Assumptions model_passes_whole_check_with_oracle.
+
+Theorem model_passes_compressed_check_with_oracle :
+  forall (tbl : list (hin * Z)) (steps : list step),
+    sane allP [] steps -> wf_env [] [] steps -> ctx_nonneg steps ->
+    check_ccase (tbl, compress obs0 (model_trace_o (table_sha tbl) init tinit steps)) = (-1, -1, 0).
+Proof.
+  intros tbl steps Hs Hw Hc. unfold check_ccase, check_case. cbn [fst snd].
+  rewrite expand_compress. exact (model_passes_check_oracle_full_lemma (table_sha tbl) steps Hs Hw Hc).
+Qed.
+Print Assumptions model_passes_compressed_check_with_oracle.
+
 (** the hypotheses of [model_passes_check] hold of a history with two requesters due at one
     height, a requester asking again in a later block, and a far request *)
 Example plain_history_nonvacuous :
@@ -441,7 +461,7 @@ Definition demo_oracle : list step :=
 
 Example wf_env_nonvacuous :
   sane allP [] (demo_pre ++ demo_req :: demo_post) /\ wf_env [] [] (demo_pre ++ demo_req :: demo_post)
-  /\ sane allP [] demo_oracle /\ wf_env [] [] demo_oracle
+  /\ sane allP [] demo_oracle /\ wf_env [] [] demo_oracle /\ ctx_nonneg demo_oracle
   /\ check_from toy_sha init pinit tinit
        (model_trace_o toy_sha init tinit (demo_pre ++ demo_req :: demo_post)) 0 (-1) (-1) 0 false = (-1, -1, 0)
   /\ check_from toy_sha init pinit tinit (model_trace_o toy_sha init tinit demo_oracle) 0 (-1) (-1) 0 false
@@ -452,5 +472,6 @@ Proof.
   split; [simpl; intuition (try discriminate; try lia)|].
   split; [simpl; intuition (try discriminate; try lia)|].
   split; [simpl; intuition (try discriminate; try lia)|].
+  split; [simpl; intuition lia|].
   split; [vm_compute; reflexivity|]. split; [vm_compute; reflexivity|]. vm_compute. reflexivity.
 Qed.
